@@ -297,6 +297,8 @@ func (e *Engine) evalIdent(env *Env, name string) Value {
 		}
 	}
 	switch name {
+	case "isint64", "isfloat64", "isstring", "isbool", "anyint", "anystr", "anybool", "isjsonnumber":
+		return FuncRefV{Name: name}
 	case "len", "cap", "fresh", "as", "typeis", "isnil", "arrid", "abs", "min", "max", "allocated", "sameslice", "unchanged", "str", "int64", "uint64", "int", "byte", "implies", "ident":
 		return FuncRefV{Name: name}
 	case "MaxInt64":
@@ -724,6 +726,21 @@ func (e *Engine) evalCall(env *Env, n *cexpr.Node) Value {
 			t = types.NewPointer(t)
 		}
 		return BoolV{anyIs(x.T, t)}
+	case "isint64":
+		return BoolV{anyIs(e.eval(env, args[0]).(AnyV).T, types.Typ[types.Int64])}
+	case "isfloat64":
+		return BoolV{anyIs(e.eval(env, args[0]).(AnyV).T, types.Typ[types.Float64])}
+	case "isstring":
+		return BoolV{anyIs(e.eval(env, args[0]).(AnyV).T, types.Typ[types.String])}
+	case "isbool":
+		return BoolV{anyIs(e.eval(env, args[0]).(AnyV).T, types.Typ[types.Bool])}
+	case "anyint":
+		return IntV{smt.AppS("val_i", smt.Int, e.eval(env, args[0]).(AnyV).T)}
+	case "anybool":
+		return BoolV{smt.AppS("val_b", smt.Bool, e.eval(env, args[0]).(AnyV).T)}
+	case "anystr":
+		a := e.eval(env, args[0]).(AnyV).T
+		return StrV{smt.AppS("arr_s", smt.IArr, a), smt.AppS("off_s", smt.Int, a), smt.AppS("len_s", smt.Int, a)}
 	case "str":
 		// str(slice): the string view of a byte slice's current contents
 		x := e.eval(env, args[0]).(SliceV)
